@@ -667,6 +667,10 @@ class Analyzer(ExprMixin):
         d = self.design
         if st.lib != "work":
             raise Unsupported(f"instantiation from library {st.lib}")
+        hid = self.lookup(scope, "work")
+        if hid is not None:
+            self.error("S-hide", f"instance {st.label_raw}: the library name work is hidden by a user declaration "
+                       f"({self._ek(hid)} {getattr(hid, 'raw', 'work')})", st.line, name="work")
         child = d.entities.get(st.entity)
         if child is None:
             self.error("S-struct", f"instance {st.label_raw}: entity {st.entity_raw} has not been analysed before its use "
@@ -1080,6 +1084,9 @@ class Analyzer(ExprMixin):
         return obj, ty, assign, not steps
 
     def signal_assign(self, target, value, scope, line):
+        if value.kind == "unaffected":
+            self.target(target, scope, "signal", line)
+            return lambda c: None
         t = self.target(target, scope, "signal", line)
         if t is None:
             self.expr(value, scope)  # still analyse the source for further errors
